@@ -7,10 +7,14 @@ import (
 	"crypto/rsa"
 	"crypto/sha256"
 	"crypto/x509"
+	"encoding/base64"
+	"encoding/hex"
 	"encoding/json"
 	"encoding/pem"
 	"fmt"
 	"github.com/google/gce-tcb-verifier/keys"
+	tdxpb "github.com/google/go-tdx-guest/proto/tdx"
+	tpmpb "github.com/google/go-tpm-tools/proto/attest"
 	"hash/fnv"
 	"io"
 	"math/rand"
@@ -212,6 +216,24 @@ func verifyDoc(d *issuedDoc, root *x509.Certificate) []string {
 			if !found {
 				bad = append(bad, fmt.Sprintf("TDX measurement listed for RAM %d GiB is not in the policy derived for that RAM size (err=%v)", m.RamGib, err))
 			}
+			// ... and a quote that carries the listed MRTD validates against the endorsement for that RAM size
+			if mat, merr := rp.GetMaterial(); merr == nil && len(m.Mrtd) == 48 {
+				q := proto.Clone(mat.Quote).(*tdxpb.QuoteV4)
+				q.TdQuoteBody.MrTd = m.Mrtd
+				qb, _ := proto.Marshal(&tpmpb.Attestation{TeeAttestation: &tpmpb.Attestation_TdxAttestation{TdxAttestation: q}})
+				var verr error
+				func() {
+					defer func() {
+						if p := recover(); p != nil {
+							verr = fmt.Errorf("PANIC: %v", p)
+						}
+					}()
+					verr = gtb.TdxValidate(context.Background(), qb, &gtb.TdxValidateOptions{Endorsement: e, RootsOfTrust: roots, Now: mid, ExpectedRAMGiB: int(m.RamGib)})
+				}()
+				if verr != nil {
+					bad = append(bad, fmt.Sprintf("a quote with the MRTD listed for RAM %d GiB is rejected by TdxValidate for that RAM size: %v", m.RamGib, verr))
+				}
+			}
 		}
 	}
 	// the documented openssl flow, re-done in Go on the inspect outputs
@@ -224,6 +246,19 @@ func verifyDoc(d *issuedDoc, root *x509.Certificate) []string {
 		return w.Bytes()
 	}
 	payload := out(func(ctx context.Context) error { return gtb.InspectPayload(ctx, e) })
+	// the text forms re-emit the same bytes (what a shell pipeline decodes with base64 -d / xxd -r -p)
+	for _, tf := range []struct {
+		name string
+		form gtb.BytesForm
+		dec  func(string) ([]byte, error)
+	}{{"base64", gtb.BytesBase64, base64.StdEncoding.DecodeString}, {"hex", gtb.BytesHex, hex.DecodeString}} {
+		w := &bufWriter{}
+		if err := gtb.InspectPayload(gtb.WithInspect(context.Background(), &gtb.Inspect{Writer: w, Form: tf.form}), e); err != nil {
+			bad = append(bad, "inspect payload in form "+tf.name+" fails: "+err.Error())
+		} else if b, derr := tf.dec(strings.TrimSpace(string(w.Bytes()))); derr != nil || !bytes.Equal(b, payload) {
+			bad = append(bad, fmt.Sprintf("inspect payload in form %s does not decode to the payload bytes (%v)", tf.name, derr))
+		}
+	}
 	sig := out(func(ctx context.Context) error { return gtb.InspectSignature(ctx, e) })
 	certDER := out(func(ctx context.Context) error {
 		return gtb.InspectMask(ctx, e, &fmpb.FieldMask{Paths: []string{"cert"}})
